@@ -1419,6 +1419,47 @@ fn sessions(a: &Args, subj_index: usize, heavy: bool) -> Vec<Session> {
         }
     }
 
+    // --- LZ windows with MATCHES on both sides of the boundaries.  A 301-byte pseudo-random block repeated: every
+    //     position has a maximal match, found fast.  lzrep: total lengths around the 32 KiB window and well beyond it;
+    //     lzmark: a unique 40-byte marker twice, at distance d, the second copy beyond position 32 768 (so the window
+    //     no longer starts at 0), d on both sides of the window size; lzmarklen: markers of the minimum / maximum match
+    //     lengths, both copies beyond position 32 768.  Own model (same) and a model of a short prefix (other).
+    {
+        let mut r = root.derive("lzrep");
+        let block = r.bytes(301);
+        let rep = |from: usize, n: usize| -> Vec<u8> { (from..from + n).map(|i| block[i % 301]).collect() };
+        let mut push2 = |klass: String, y: Vec<u8>| {
+            out.push(Session { klass: klass.clone(), mode: "same", train: y.clone(), payloads: vec![y.clone()] });
+            out.push(Session { klass, mode: "other", train: y[..1000].to_vec(), payloads: vec![y] });
+        };
+        let mut ns = vec![32767usize, 32768, 32769, 40000, 70000];
+        if th {
+            ns.extend_from_slice(&[65536, 65537, 140000]);
+        }
+        for n in ns {
+            push2(format!("lzrep{n}"), rep(0, n));
+        }
+        for &d in &[511usize, 512, 513, 32767, 32768, 32769] {
+            let marker = r.bytes(40);
+            let p0 = if d < 1000 { 33000 } else { 2000 };
+            let mut y = rep(0, p0);
+            y.extend_from_slice(&marker);
+            y.extend(rep(7, d - 40));
+            y.extend_from_slice(&marker);
+            y.extend(rep(100, 300));
+            push2(format!("lzmark{d}"), y);
+        }
+        let mut y = rep(0, 33000);
+        for &m in &[9usize, 10, 11, 12, 19, 20, 21, 257, 258, 259, 300] {
+            let marker = r.bytes(m);
+            y.extend_from_slice(&marker);
+            y.extend(rep(13 + m, 500));
+            y.extend_from_slice(&marker);
+            y.extend(rep(29 + m, 200));
+        }
+        push2("lzmarklen".into(), y);
+    }
+
     // --- bit fields of every width for the variable-length field pair of BitOps (value < 2^len)
     {
         let mut r = root.derive("bitfield");
@@ -1532,14 +1573,18 @@ fn run_subject(a: &Args, name: &str) {
             continue;
         }
         let trains = codec.trains();
-        // the window sessions are random bytes: cheap even for the quadratic matchers
-        let cap = if s.klass.starts_with("lzdist") { codec.max_len(a.thorough()).max(40_000) } else { codec.max_len(a.thorough()) };
+        // the window sessions are cheap even for the quadratic matchers: random bytes (lzdist: no candidate survives the
+        // first byte) or a short block repeated (lzrep / lzmark: a maximal match at every position, 258 bytes per step);
+        // only DictionaryBuilder::build is slow on repeated data, so those are trained on a short prefix (mode other)
+        let base_cap = codec.max_len(a.thorough());
+        let train_cap = if s.klass.starts_with("lzdist") { base_cap.max(40_000) } else { base_cap };
+        let cap = if s.klass.starts_with("lz") { base_cap.max(80_000) } else { base_cap };
         // a codec without a training step sees every payload on its own: other / superset sessions only repeat "same"
         if !trains && s.mode != "same" && !(s.klass == "small3" && s.mode == "superset") {
             continue;
         }
         let mode = if trains { s.mode } else { "self" };
-        if trains && s.train.len() > cap {
+        if trains && s.train.len() > train_cap {
             st.skipped_sessions += 1;
             continue;
         }
